@@ -260,3 +260,29 @@ func refStallReason(ref *Ref) string {
 	}
 	return normErr(last)
 }
+
+// explainAgainstCkpt lists differing rows between a captured dump and the
+// reference checkpoint of the same height (violation reports only).
+func explainAgainstCkpt(ref *Ref, at uint32, got *sim.Dump) string {
+	ck, ok := ref.Ckpt[at]
+	if !ok || got == nil {
+		return ""
+	}
+	dbw, err := sim.OpenRO(filepath.Join(ck, "node.db.v4"))
+	if err != nil {
+		return ""
+	}
+	defer dbw.Close()
+	want, err := sim.TakeDump(dbw, true)
+	if err != nil {
+		return ""
+	}
+	out := ""
+	for _, t := range sim.DiffTables(want, got) {
+		out += "\n  " + t + ":"
+		for _, l := range sim.DiffText(want, got, t, 3) {
+			out += "\n    " + trimZeros(l)
+		}
+	}
+	return out
+}
